@@ -834,6 +834,179 @@ pub fn compile(sources: &[(String, String)], compile_time: &[GV]) -> Result<yara
     }
     Ok(c.build())
 }
+/// a writer the IR dump of the compiler is collected in
+#[derive(Clone, Default)]
+pub struct SharedBuf(pub std::sync::Arc<std::sync::Mutex<Vec<u8>>>);
+impl std::io::Write for SharedBuf {
+    fn write(&mut self, b: &[u8]) -> std::io::Result<usize> { self.0.lock().unwrap().extend_from_slice(b); Ok(b.len()) }
+    fn flush(&mut self) -> std::io::Result<()> { Ok(()) }
+}
+/// like [compile], also returning what `Compiler::set_ir_writer` received: the IR the compiler
+/// built for every rule ("RULE <name>" followed by the tree)
+pub fn compile_with_ir(sources: &[(String, String)], compile_time: &[GV]) -> Result<(yara_x::Rules, String), String> {
+    let buf = SharedBuf::default();
+    let mut c = yara_x::Compiler::new();
+    c.set_ir_writer(buf.clone());
+    define_globals(&mut c, compile_time);
+    for (ns, src) in sources {
+        c.new_namespace(ns);
+        c.add_source(src.as_str()).map_err(|e| e.to_string())?;
+    }
+    let rules = c.build();
+    let text = String::from_utf8_lossy(&buf.0.lock().unwrap()).to_string();
+    Ok((rules, text))
+}
+// ------------------------------------------------------------ the real IR
+/// one node of the IR dump (`impl Debug for IR`): constructor of Cond/IrTree.v irk, integer
+/// attributes, children in dump order
+#[derive(Clone, Debug)]
+pub struct IrNode { pub kind: &'static str, pub args: Vec<i64>, pub kids: Vec<IrNode> }
+impl IrNode {
+    pub fn to_coq(&self) -> String {
+        format!("(IR {} {} {})", self.kind, coq_list(&self.args, |z| cz(*z)), coq_list(&self.kids, |k| k.to_coq()))
+    }
+    pub fn size(&self) -> usize { 1 + self.kids.iter().map(|k| k.size()).sum::<usize>() }
+}
+fn after<'a>(s: &'a str, key: &str) -> Option<&'a str> { s.find(key).map(|i| &s[i + key.len()..]) }
+fn leading_int(s: &str) -> Option<i64> {
+    let end = s.char_indices().find(|(i, c)| !(c.is_ascii_digit() || (*i == 0 && *c == '-'))).map(|(i, _)| i).unwrap_or(s.len());
+    s[..end].parse().ok()
+}
+fn unescape(s: &str) -> Result<Vec<i64>, String> {
+    let b = s.as_bytes(); let mut out = vec![]; let mut i = 0;
+    while i < b.len() {
+        if b[i] == b'\\' {
+            i += 1;
+            match b.get(i) {
+                Some(b'n') => out.push(10), Some(b't') => out.push(9), Some(b'r') => out.push(13), Some(b'0') => out.push(0),
+                Some(b'"') => out.push(34), Some(b'\\') => out.push(92), Some(b'\'') => out.push(39),
+                Some(b'x') => { let h = std::str::from_utf8(&b[i + 1..i + 3]).map_err(|e| e.to_string())?; out.push(i64::from_str_radix(h, 16).map_err(|e| e.to_string())?); i += 2; }
+                other => return Err(format!("escape {:?}", other)),
+            }
+            i += 1;
+        } else { out.push(b[i] as i64); i += 1; }
+    }
+    Ok(out)
+}
+/// pattern reference of PATTERN_* lines: `PatternIdx(3)` or the loop variable of a for..of
+fn pat_ref(rest: &str) -> Result<(Vec<i64>, &str), String> {
+    if let Some(r) = rest.strip_prefix("PatternIdx(") {
+        let n = leading_int(r).ok_or("pattern index")?;
+        let tail = after(r, ")").ok_or("pattern index )")?;
+        Ok((vec![0, n], tail))
+    } else if rest.starts_with("Var {") {
+        let r = after(rest, "index: ").ok_or("pattern var index")?;
+        let n = leading_int(r).ok_or("pattern var index")?;
+        // `Var { var: Var { .. index: N }, type_value: integer(unknown) }<flags>`
+        let tail = after(r, "} }").or_else(|| after(r, ") }")).ok_or("pattern var tail")?;
+        Ok((vec![1, n], tail))
+    } else { Err(format!("pattern reference: {}", rest)) }
+}
+fn ir_line(body: &str) -> Result<(&'static str, Vec<i64>), String> {
+    let body = match body.find(" -- hash:") { Some(i) => &body[..i], None => body };
+    let (head, rest) = match body.find(' ') { Some(i) => (&body[..i], body[i + 1..].trim_end()), None => (body.trim_end(), "") };
+    let plain = |k: &'static str| -> Result<(&'static str, Vec<i64>), String> { if rest.is_empty() { Ok((k, vec![])) } else { Err(format!("unexpected text after {}: {}", head, rest)) } };
+    match head {
+        "CONST" => {
+            if let Some(r) = rest.strip_prefix("integer(") { Ok(("KConstInt", vec![leading_int(r).ok_or("const integer")?])) }
+            else if let Some(r) = rest.strip_prefix("boolean(") { Ok(("KConstBool", vec![if r.starts_with("true") { 1 } else if r.starts_with("false") { 0 } else { return Err(format!("const {}", rest)) }])) }
+            else if let Some(r) = rest.strip_prefix("string(\"") { let inner = r.strip_suffix("\")").ok_or("const string")?; Ok(("KConstStr", unescape(inner)?)) }
+            else { Err(format!("constant {}", rest)) }
+        }
+        "FILESIZE" => plain("KFilesize"), "NOT" => plain("KNot"), "AND" => plain("KAnd"), "OR" => plain("KOr"), "MINUS" => plain("KMinus"),
+        "ADD" => plain("KAdd"), "SUB" => plain("KSub"), "MUL" => plain("KMul"), "DIV" => plain("KDiv"), "MOD" => plain("KMod"),
+        "SHL" => plain("KShl"), "SHR" => plain("KShr"), "EQ" => plain("KEq"), "NE" => plain("KNe"), "LT" => plain("KLt"), "GT" => plain("KGt"),
+        "LE" => plain("KLe"), "GE" => plain("KGe"), "BITWISE_NOT" => plain("KBitNot"), "BITWISE_AND" => plain("KBitAnd"), "BITWISE_OR" => plain("KBitOr"),
+        "BITWISE_XOR" => plain("KBitXor"), "CONTAINS" => plain("KContains"), "ICONTAINS" => plain("KIContains"), "STARTS_WITH" => plain("KStartsWith"),
+        "ISTARTS_WITH" => plain("KIStartsWith"), "ENDS_WITH" => plain("KEndsWith"), "IENDS_WITH" => plain("KIEndsWith"), "IEQUALS" => plain("KIEquals"),
+        "DEFINED" => plain("KDefined"), "WITH" => plain("KWith"), "OF" => plain("KOf"), "FOR_OF" => plain("KForOf"), "FOR_IN" => plain("KForIn"),
+        "SYMBOL" => {
+            if rest.starts_with("Var {") { Ok(("KSymVar", vec![leading_int(after(rest, "index: ").ok_or("symbol var")?).ok_or("symbol var index")?])) }
+            else if rest.starts_with("Field {") { Ok(("KSymField", vec![leading_int(after(rest, "index: ").ok_or("symbol field")?).ok_or("symbol field index")?])) }
+            else if rest.starts_with("Rule {") { Ok(("KSymRule", vec![leading_int(after(rest, "RuleId(").ok_or("symbol rule")?).ok_or("symbol rule id")?])) }
+            else { Err(format!("symbol {}", rest)) }
+        }
+        "FN_CALL" => {
+            let name = rest.split('@').next().unwrap_or("");
+            let (signed, r) = match name.strip_prefix("uint") { Some(r) => (0, r), None => (1, name.strip_prefix("int").ok_or_else(|| format!("function {}", name))?) };
+            let (be, bits) = match r.strip_suffix("be") { Some(b) => (1, b), None => (0, r) };
+            let bytes = match bits { "8" => 1, "16" => 2, "32" => 4, _ => return Err(format!("function {}", name)) };
+            Ok(("KFnRead", vec![bytes, signed, be]))
+        }
+        "PATTERN_MATCH" => { let (mut a, tail) = pat_ref(rest)?; a.push(match tail.trim() { "" => 0, "AT" => 1, "IN" => 2, t => return Err(format!("anchor {}", t)) }); Ok(("KPatMatch", a)) }
+        "PATTERN_COUNT" => { let (mut a, tail) = pat_ref(rest)?; a.push(match tail.trim() { "" => 0, "IN" => 1, t => return Err(format!("range {}", t)) }); Ok(("KPatCount", a)) }
+        "PATTERN_OFFSET" | "PATTERN_LENGTH" => {
+            let (mut a, tail) = pat_ref(rest)?; a.push(match tail.trim() { "" => 0, "INDEX" => 1, t => return Err(format!("index {}", t)) });
+            Ok((if head == "PATTERN_OFFSET" { "KPatOffset" } else { "KPatLength" }, a))
+        }
+        _ => Err(format!("unknown IR node: {}", body)),
+    }
+}
+/// the normalisations documented in Cond/IrTree.v
+fn ir_normalise(mut n: IrNode) -> IrNode {
+    n.kids = n.kids.into_iter().map(ir_normalise).collect();
+    if (n.kind == "KPatOffset" || n.kind == "KPatLength") && n.args.last() == Some(&0) && n.kids.is_empty() {
+        *n.args.last_mut().unwrap() = 1;
+        n.kids.push(IrNode { kind: "KConstInt", args: vec![1], kids: vec![] });
+    }
+    if n.kind == "KWith" && n.kids.len() > 2 {
+        let mut kids = n.kids; let body = kids.pop().unwrap();
+        let mut acc = body;
+        for d in kids.into_iter().rev() { acc = IrNode { kind: "KWith", args: vec![], kids: vec![d, acc] }; }
+        return acc;
+    }
+    n
+}
+/// parses what `Compiler::set_ir_writer` received: (rule name, tree) in the order of the dump
+pub fn parse_ir(text: &str) -> Result<Vec<(String, IrNode)>, String> {
+    let mut out: Vec<(String, IrNode)> = vec![];
+    // stack of (depth, node) of the rule being read
+    let mut stack: Vec<(usize, IrNode)> = vec![];
+    let mut name: Option<String> = None;
+    fn close(stack: &mut Vec<(usize, IrNode)>, to_depth: usize) {
+        while stack.len() > 1 && stack.last().unwrap().0 >= to_depth {
+            let (_, n) = stack.pop().unwrap();
+            stack.last_mut().unwrap().1.kids.push(n);
+        }
+    }
+    let mut finish = |name: &mut Option<String>, stack: &mut Vec<(usize, IrNode)>, out: &mut Vec<(String, IrNode)>| -> Result<(), String> {
+        if let Some(nm) = name.take() {
+            close(stack, 0);
+            match stack.pop() { Some((_, n)) if stack.is_empty() => out.push((nm, ir_normalise(n))), _ => return Err(format!("rule {}: no single root", nm)) }
+        }
+        stack.clear();
+        Ok(())
+    };
+    for line in text.lines() {
+        if let Some(n) = line.strip_prefix("RULE ") { finish(&mut name, &mut stack, &mut out)?; name = Some(n.trim().to_string()); continue; }
+        if line.trim().is_empty() || name.is_none() { continue; }
+        let indent = line.len() - line.trim_start().len();
+        let t = line.trim_start();
+        // `<id>: KIND ..`
+        let colon = t.find(": ");
+        let is_node = colon.map(|i| i > 0 && t[..i].bytes().all(|c| c.is_ascii_digit())).unwrap_or(false);
+        if is_node {
+            let depth = indent / 2;
+            let (kind, args) = ir_line(&t[colon.unwrap() + 2..])?;
+            if stack.is_empty() { stack.push((depth, IrNode { kind, args, kids: vec![] })); continue; }
+            if depth <= stack[0].0 { return Err(format!("second root: {}", line)); }
+            close(&mut stack, depth);
+            stack.push((depth, IrNode { kind, args, kids: vec![] }));
+        } else if let Some(i) = colon {
+            // n / i / max_count / count / item of a loop
+            let key = &t[..i];
+            if ["n", "i", "max_count", "count", "item"].contains(&key) {
+                let v = leading_int(after(t, "index: ").ok_or("loop variable")?).ok_or("loop variable index")?;
+                stack.last_mut().ok_or("loop variable without node")?.1.args.push(v);
+            } else if t.starts_with("FilesizeBounds") || t.starts_with("start:") || t.starts_with("end:") { /* trailing note of the dump */ }
+            else { return Err(format!("unexpected line in IR dump: {}", line)); }
+        } else if t.starts_with("FilesizeBounds") || t == "}" || t == ")," || t == ")" { /* trailing note of the dump */ }
+        else { return Err(format!("unexpected line in IR dump: {}", line)); }
+    }
+    finish(&mut name, &mut stack, &mut out)?;
+    Ok(out)
+}
+
 /// one add_source call per rule, or one per namespace block
 pub fn sources_of(rules: &[RuleSpec], per_rule: bool) -> Vec<(String, String)> {
     let mut out: Vec<(String, String)> = vec![];
@@ -854,12 +1027,16 @@ pub fn with_warmup(sources: &[(String, String)]) -> Vec<(String, String)> {
     v
 }
 pub fn run_impl(sources: &[(String, String)], compile_time: &[GV], globals: &[GV], data: &[u8]) -> Outcome {
-    let rules = match catch(AssertUnwindSafe(|| compile(sources, compile_time))) {
-        Err(p) => return Outcome::Panic(format!("compile: {}", p)),
-        Ok(Err(e)) => return Outcome::Rejected(e),
+    run_impl_ir(sources, compile_time, globals, data).0
+}
+/// also returns the IR dump of the very compilation whose rules are scanned
+pub fn run_impl_ir(sources: &[(String, String)], compile_time: &[GV], globals: &[GV], data: &[u8]) -> (Outcome, String) {
+    let (rules, ir) = match catch(AssertUnwindSafe(|| compile_with_ir(sources, compile_time))) {
+        Err(p) => return (Outcome::Panic(format!("compile: {}", p)), String::new()),
+        Ok(Err(e)) => return (Outcome::Rejected(e), String::new()),
         Ok(Ok(r)) => r,
     };
-    match catch(AssertUnwindSafe(|| {
+    let o = match catch(AssertUnwindSafe(|| {
         let mut s = yara_x::Scanner::new(&rules);
         s.set_timeout(std::time::Duration::from_secs(20));
         set_globals(&mut s, globals);
@@ -872,7 +1049,8 @@ pub fn run_impl(sources: &[(String, String)], compile_time: &[GV], globals: &[GV
         Err(p) => Outcome::Panic(format!("scan: {}", p)),
         Ok(Err(e)) => Outcome::Panic(format!("scan error: {}", e)),
         Ok(Ok((all, public))) => Outcome::Ok { all, public },
-    }
+    };
+    (o, ir)
 }
 pub fn gv_json(g: &[GV]) -> String {
     let v: Vec<String> = GLOBALS.iter().zip(g).map(|((n, _), v)| format!("{}:{}", json_str(n), match v { GV::I(z) => format!("{}", z), GV::B(b) => format!("{}", b), GV::S(s) => json_str(&String::from_utf8_lossy(s)) })).collect();
